@@ -572,6 +572,66 @@ def mtu_history_check(tier):
     return n, viols
 
 
+def long_history_work(arg):
+    """ONE long send history per (mtu, retry pattern) on a keyed ConnectionBase driven directly: more fragmented messages
+    than the 16-bit fragment id has values (and as many message / datagram numbers), every send() followed by builds until
+    the queue is drained.  No send() and no build may raise, nothing stays queued, every datagram fits, ids stay in 1..65535."""
+    import struct as _st
+    from mpgameserver.connection import ConnectionBase, ConnectionStatus, Packet, RetryMode
+    mtu, pattern, n_msgs = arg
+    viols = {}
+    old = Packet.MTU
+    n = 0
+    try:
+        Packet.setMTU(mtu)
+        P, F = caps(mtu)
+        t = [7000.0]
+        c = ConnectionBase(False, ("10.0.0.9", 9))
+        c.clock = lambda: t[0]
+        c.session_key_bytes = bytes(range(16))
+        c.status = ConnectionStatus.CONNECTED
+        modes = {"none": [RetryMode.NONE], "mixed": [RetryMode.NONE, RetryMode.BEST_EFFORT, RetryMode.RETRY_ON_TIMEOUT]}[pattern]
+        budget = mtu - 28
+        for i in range(n_msgs):
+            n += 1
+            size = P + 1 + (i % 40)
+            try:
+                c.send(bytes([i & 0xFF]) * size, retry=modes[i % len(modes)])
+            except Exception as e:
+                viols[("packing-raises", "send() raises %s after a long history of fragmented sends" % type(e).__name__)] = [1, {"part": "long-history", "mtu": mtu, "pattern": pattern, "n": n_msgs},
+                                                                                                                   "send() number %d (%d bytes, fragment id counter %r) raised %r" % (i + 1, size, getattr(c, "seq_fragment", None), e)]
+                break
+            for _ in range(8):
+                t[0] += 1 / 60.0 + 1e-4
+                try:
+                    pkt = c._build_packet()
+                except Exception as e:
+                    viols[("packing-raises", "packet construction raises %s after a long history of fragmented sends" % type(e).__name__)] = [1, {"part": "long-history", "mtu": mtu, "pattern": pattern, "n": n_msgs}, "build after send %d raised %r" % (i + 1, e)]
+                    pkt = None
+                    break
+                if pkt is not None:
+                    if pkt.total_size(c.session_key_bytes) > budget:
+                        viols[("mtu", "a datagram exceeds MTU-28 after a long history of fragmented sends")] = [1, {"part": "long-history", "mtu": mtu, "pattern": pattern, "n": n_msgs}, "after send %d: %d > %d" % (i + 1, pkt.total_size(c.session_key_bytes), budget)]
+                    for m in pkt.msgs:
+                        if m.type.value == 7:
+                            fid = _st.unpack(">H", m.payload[:2])[0]
+                            if not 1 <= fid <= 65535:
+                                viols[("packing-raises", "fragment id outside 1..65535")] = [1, {"part": "long-history", "mtu": mtu, "pattern": pattern, "n": n_msgs}, "id %d" % fid]
+                    # the peer acknowledges at once: nothing accumulates in the retry tables
+                    for s_ in list(c.pending_acks):
+                        c._handle_ack(s_)
+                if not c.outgoing_messages:
+                    break
+            if viols:
+                break
+            if c.outgoing_messages:
+                viols[("message-lost", "a fragment stays queued after a long history of fragmented sends")] = [1, {"part": "long-history", "mtu": mtu, "pattern": pattern, "n": n_msgs}, "after send %d: %d queued" % (i + 1, len(c.outgoing_messages))]
+                break
+    finally:
+        Packet.setMTU(old)
+    return n, viols
+
+
 def live_mtu_check(tier):
     """Packet.setMTU on a process in which connections already exist (the documented remedy for a lossy path): from then on
     every datagram a live connection emits respects the NEW limit, and every message the new configuration accepts leaves
@@ -672,6 +732,12 @@ def run(tier, seed):
     n_live, lv = live_mtu_check(tier)
     for key, (cnt, wit, msg) in lv.items():
         acc[key] = [cnt, wit, msg]
+    lh_jobs = [(1500, "mixed", 65700), (512, "none", 65700)] + ([(1095, "mixed", 131200)] if tier == "thorough" else [])
+    lh = core.pmap("checks.c09", "long_history_work", lh_jobs)
+    n_long = sum(r[0] for r in lh)
+    for r in lh:
+        for key, (cnt, wit, msg) in r[1].items():
+            acc.setdefault(key, [cnt, wit, msg])
     plist = params_list(tier)
     st = explore.explore_all("checks.c09", "scenario", plist, 0, time_budget=(1000 if tier == "quick" else 3600))
     sig_counts = getattr(st, "sig_counts", {})
@@ -698,7 +764,7 @@ def run(tier, seed):
         "inflight_executions": st3.executions, "inflight_configurations": len(iplist), "inflight_frames": st3.steps, "inflight_distinct_outcomes": len(st3.outcomes), "inflight_capped": st3.capped,
         "codec_cases": total, "codec_exact_round_trips": nontrivial, "codec_classes": dict(classes),
         "stall_executions": st2.executions, "stall_configurations": len(splist),
-        "packing_executions": st.executions, "packing_configurations": len(plist), "packing_ticks": st.steps, "packing_capped": st.capped, "mtu_histories": n_hist, "mtu_changes_on_live_connections": n_live,
+        "packing_executions": st.executions, "packing_configurations": len(plist), "packing_ticks": st.steps, "packing_capped": st.capped, "long_history_fragmented_sends": n_long, "mtu_histories": n_hist, "mtu_changes_on_live_connections": n_live,
         "rule": "codec: isServer x 4 ctimes x 8 types x 5x5 seq/ack x 5 ack_bits x %d message lists (count 0,1,2 with all 64 inner type pairs,3,254,255) x {crc, gcm}%s; non-trivial = exact round trips. "
                 "packing: MTUs x {client, server-twisted, server-thread} x every send sequence of <=2/3 lengths from {0,1,P-6,P-5,P-1,P,P+1,P/2,P/2+1} per retry mode, mixed-mode triples, bursts of 254..300 messages of 0/1 bytes; perfect network until drained. stall: retry-mode messages sent on consecutive frames with withheld acks, then one or two long frames (0.25/0.6 s) so that everything due for resend meets in one build. "
                 "inflight: 1-3 retry-mode messages (7 / P/2+1 / P bytes, one frame or consecutive frames) transmitted and unacked (acks withheld 0.6 s), then further sends of every mode "
@@ -716,6 +782,13 @@ def run(tier, seed):
 
 
 def replay(witness):
+    if witness.get("part") == "long-history":
+        n, viols = long_history_work((witness["mtu"], witness["pattern"], witness["n"]))
+        return [core.Violation(o, sg, witness, v[2]) for (o, sg), v in viols.items()]
+    return _replay_rest(witness)
+
+
+def _replay_rest(witness):
     if witness.get("part") == "stall":
         ch = explore.replay_choices(stall_scenario, _tup(witness["params"]), witness.get("choices", []))
         return [core.Violation(o, s, witness, m) for o, s, m in ch.found]
